@@ -139,6 +139,55 @@ def _race_stress(res):
         shutil.rmtree(scratch, ignore_errors=True)
 
 
+def _race_gennode(res):
+    """quick and thorough tier, C13: the generated-node lock-discipline scenarios (hook replaced in the window after the
+    runner's Unlock, hooks replaced continuously while frames / requests are served, toggles while the transmitter is
+    busy) built with the race detector: a read of node state outside the node lock that meets a locked write is
+    reported by the runtime as DATA RACE.  Costs about 2-4 s (the race-instrumented packages are cached)."""
+    import time as _t
+    t0 = _t.time()
+    scratch = vlib.scratch_dir()
+    try:
+        hdir = os.path.join(vlib.ROOT, "harness", "runner")
+        ov = {os.path.join(vlib.REPO, "cmd", "verif_runner", f): os.path.join(hdir, f)
+              for f in sorted(os.listdir(hdir)) if f.endswith(".go")}
+        for k, v in vlib.EXTRA_OVERLAYS.get("runner", {}).items():
+            ov[os.path.join(vlib.REPO, k)] = v
+        ovp = os.path.join(scratch, "overlay-race.json")
+        json.dump({"Replace": ov}, open(ovp, "w"))
+        exe = os.path.join(scratch, "harness-runner-race")
+        rc, out = vlib.sh(["go", "build", "-race", "-overlay", ovp, "-o", exe, "./cmd/verif_runner"],
+                          cwd=vlib.REPO, env=vlib.go_env(), timeout=900)
+        if rc != 0:
+            res.cov["race_gennode"] = "race build unavailable: " + out[-300:]
+            return
+        drv = vlib.build_driver("runner")
+        rc, out, err = vlib.run_pipe(exe, ["gennode", str(res.seed), "0"], drv, ["c13"], timeout=600, mem_kb=64000000)
+        bad = [line for line in out.splitlines() if line.startswith("PFAIL ")]
+        races = err.count("WARNING: DATA RACE")
+        res.cov["race_gennode"] = {"rc": rc, "data_races": races, "pfail": len(bad), "wall_s": round(_t.time() - t0, 1),
+                                   "stdout_tail": out[-300:]}
+        if races:
+            m = re.search(r"WARNING: DATA RACE\n(.*?)(?:\n==================|\Z)", err, re.S)
+            report = (m.group(1) if m else err)[:2500]
+            frames = re.findall(r"^  ([\w./*()\-]+)\(\)\n\s+(\S+:\d+)", report, re.M)
+            under = ["%s at %s" % f for f in frames if "go.einride.tech/can/" in f[0] and "cmd/verif_runner" not in f[1]]
+            res.violation("race detector: %d data race(s) in the generated-node lock-discipline scenarios - node state is accessed "
+                          "outside the node lock; first report involves: %s" % (races, "; ".join(under[:4]) or "see replay"),
+                          {"race_report": report, "harness": "harness/runner gennode (go build -race)",
+                           "scenarios": "hookswap rx/tx, hookchurn, busytoggles over net.Pipe and a unix socket"})
+        elif bad:
+            for b in bad[:3]:
+                obs, _, rest = b[6:].partition(" || ")
+                res.violation("property predicate fails on the implementation's output (race build): %s ; %s" % (obs, rest),
+                              {"observation": obs, "detail": rest, "harness": "harness/runner gennode (go build -race)"})
+        elif rc != 0:
+            res.violation("race-detector run of the generated-node scenarios failed (rc=%s)" % rc,
+                          {"stderr": err[-3000:], "harness": "harness/runner gennode (go build -race)"}, no_input=True)
+    finally:
+        shutil.rmtree(scratch, ignore_errors=True)
+
+
 def run(res, replay=None):
     pid = res.id
     vlib.proof_stage(res)
@@ -152,6 +201,8 @@ def run(res, replay=None):
     try:
         _fresh_example(res, gen_dir)
         _run_with_model_traces(res, pid, mode, quick, args, gen_dir)
+        if pid == "C13":
+            _race_gennode(res)
     finally:
         vlib.EXTRA_OVERLAYS.pop("runner", None)
         shutil.rmtree(gen_dir, ignore_errors=True)
